@@ -664,3 +664,96 @@ Proof.
          | apply Qn_add_pad; [exact Qc | first [apply nonul_repeat | apply nonul_nil] | first [apply cnl_repeat | reflexivity]] ]).
 Qed.
 End handlers.
+
+(* ================================================================== add_text_to_container, process_line, parse_blocks *)
+Lemma nonul_rtrim s : nonul s -> nonul (rtrim_slice s).
+Proof. intros H b Hb. apply H. unfold rtrim_slice in Hb. apply in_rev in Hb. apply in_drop_while in Hb. now apply in_rev in Hb. Qed.
+Lemma cnl_rtrim s : cnl (rtrim_slice s) <= cnl s.
+Proof. unfold rtrim_slice. rewrite cnl_rev. eapply Nat.le_trans; [apply cnl_drop_while|]. now rewrite cnl_rev. Qed.
+
+Lemma chop_lok l l1 : chop_trailing_hashtags l = Ok l1 -> LOK l -> LOK l1.
+Proof.
+  unfold chop_trailing_hashtags. rewrite rtrim_ok. cbn [bind fst]. intros H [L1 L2].
+  assert (B : LOK (rtrim_slice l)) by (split; [now apply nonul_rtrim | eapply Nat.le_trans; [apply cnl_rtrim | exact L2]]).
+  destruct (rtrim_slice l) as [|x r] eqn:R; [discriminate H|]. rewrite <- R in *. clear R.
+  destruct (Nat.leb _ _); [inversion H; subst; exact B|].
+  destruct (nth_error _ _); [|discriminate H].
+  destruct (_ && _); [|inversion H; subst; exact B].
+  rewrite rtrim_ok in H. cbn [bind fst] in H. inversion H; subst. destruct B as [B1 B2]. split.
+  - apply nonul_rtrim, nonul_firstn. exact B1.
+  - eapply Nat.le_trans; [apply cnl_rtrim|]. eapply Nat.le_trans; [apply cnl_firstn | exact B2].
+Qed.
+
+Section text.
+Variables (o : bopts) (line : bytes).
+Hypothesis HLine : LOK line.
+
+Lemma add_line_qi st id st' : add_line st id line = Ok st' -> QI st -> QI st'.
+Proof. now apply add_line_qi_gen. Qed.
+Hint Resolve add_line_qi clear_llb_up_qi finalize_up_to_qi : qi.
+
+Lemma add_text_to_container_qi st c lm st' : add_text_to_container o st c lm line = Ok st' -> QI st -> QI st'.
+Proof.
+  unfold add_text_to_container. intros H P.
+  destruct (ffn st line) as [s0| |] eqn:E0; cbn [bind] in H; try discriminate H. assert (P0 : QI s0) by eauto with qi.
+  destruct (get s0 c) as [cn| |] eqn:G0; cbn [bind] in H; try discriminate H.
+  match type of H with bind ?r _ = _ => destruct r as [s1| |] eqn:E1; cbn [bind] in H; try discriminate H end.
+  assert (P1 : QI s1) by (mon E1; eauto with qi).
+  match type of H with bind ?r _ = _ => destruct r as [s2| |] eqn:E2; cbn [bind] in H; try discriminate H end.
+  assert (P2 : QI s2) by eauto with qi.
+  match type of H with bind ?r _ = _ => destruct r as [s3| |] eqn:E3; cbn [bind] in H; try discriminate H end.
+  assert (P3 : QI s3) by eauto with qi.
+  match type of H with bind ?r _ = _ => destruct r as [lz| |] eqn:E4; cbn [bind] in H; try discriminate H end.
+  destruct lz; [eauto with qi|].
+  match type of H with bind ?r _ = _ => destruct r as [s4| |] eqn:E5; cbn [bind] in H; try discriminate H end.
+  assert (P4 : QI s4) by eauto with qi.
+  destruct (get s4 c) as [c4| |] eqn:G4; cbn [bind] in H; try discriminate H.
+  match type of H with bind ?r _ = _ => destruct r as [[rc rs]| |] eqn:E6; cbn [bind fst snd] in H; try discriminate H end.
+  inversion H; subst. apply QI_st_current. clear H E1 E2 E3 E4 E5.
+  destruct (bval c4); mon E6; repeat match goal with p : (_ * _)%type |- _ => destruct p end; cbn [fst snd] in *;
+  try match goal with E2 : (if negb _ then chop_trailing_hashtags line else Ok line) = Ok _ |- _ => mon E2 end;
+  repeat match goal with E2 : Ok _ = Ok _ |- _ => inversion E2; subst; clear E2 end;
+  first [ solve [eauto 10 with qi]
+        | (eapply add_line_qi_gen; [ | eassumption | ]; [first [exact HLine | eapply chop_lok; [eassumption | exact HLine]] | eauto with qi]) ].
+Qed.
+End text.
+
+Lemma process_line_qi o st line0 st' : LOK (norm_line line0) -> process_line o st line0 = Ok st' -> QI st -> QI st'.
+Proof.
+  unfold process_line. intros HL H P.
+  match type of H with context [check_open_blocks o ?s ?l] => assert (P0 : QI s) by (apply QI_st_line_number, QI_st_cur, QI_st_curline; exact P) end.
+  mon H; monall; repeat match goal with p : (_ * _)%type |- _ => destruct p end; cbn [fst snd] in *;
+  apply QI_st_curline; apply QI_st_last_line_length;
+  repeat match goal with
+         | C : check_open_blocks _ _ _ = Ok (_, ?s) |- _ =>
+           assert (QI s) by (eapply check_open_blocks_qi; eassumption); clear C
+         | C : open_new_blocks _ _ _ _ _ = Ok (_, ?s) |- _ =>
+           assert (QI s) by (eapply open_new_blocks_qi; eassumption); clear C
+         | C : add_text_to_container _ _ _ _ _ = Ok ?s |- _ =>
+           assert (QI s) by (eapply add_text_to_container_qi; eassumption); clear C
+         end; assumption.
+Qed.
+
+Lemma process_lines_qi o : forall ls st st', Forall (fun l => LOK (norm_line l)) ls -> process_lines o st ls = Ok st' -> QI st -> QI st'.
+Proof.
+  induction ls as [|l r IH]; intros st st' F H P; cbn [process_lines] in H.
+  - now inversion H; subst.
+  - inversion F; subst. destruct (process_line o st l) as [s1| |] eqn:E; cbn [bind] in H; try discriminate H.
+    eapply IH; [assumption | exact H|]. eapply process_line_qi; eassumption.
+Qed.
+
+Lemma QI_init : QI init_state.
+Proof. constructor. cbn [ps_root init_state all_info]. split; [|exact I]. apply Qn_trivial. reflexivity. Qed.
+
+Lemma front_matter_prologue_qi o x st rest : front_matter_prologue o init_state x = Ok (st, rest) -> QI st.
+Proof.
+  unfold front_matter_prologue. intro H.
+  destruct (bo_front_matter_delimiter o) as [d|]; [|inversion H; subst; apply QI_init].
+  mon H; monall; repeat match goal with p : (_ * _)%type |- _ => destruct p end; cbn [fst snd] in *; try apply QI_init.
+  apply QI_st_line_number.
+  eapply modify_info_qi; [eassumption | qn_side |].
+  eapply unwrap_parent_fin_qi; [eassumption|]. eapply add_child_qi; [eassumption | reflexivity | apply QI_init].
+Qed.
+
+Lemma lines_lok x : Forall (fun l => LOK (norm_line l)) (lines x).
+Proof. pose proof (lines_clean x) as C. induction C; constructor; [now apply clean_line_lok | assumption]. Qed.
